@@ -328,7 +328,7 @@ func runC15Sched(R *vlib.Out) {
 			R.Cap("deadline")
 			break
 		}
-		scenarioBudget = vlib.Remaining() / time.Duration(len(ps)-i)
+		scenarioBudget = 4 * vlib.Remaining() / time.Duration(len(ps)-i) // most scenarios finish far below their share
 		sc := c15SchedScenario("c15s", p)
 		sc.Bound = bound
 		exploreSched(R, sc)
